@@ -401,6 +401,32 @@ func main() {
 	b.WriteString("  ]\n")
 	_ = sort.Strings
 
+	// … and of the functions the other models transcribe: schema.go (classification), the walk of analyzer.go,
+	// mixin.go, fixer.go
+	groups := []struct {
+		field string
+		names []string
+	}{
+		{"classifySkeletons", []string{"Schema", "inherits", "inferFromRef", "inferSimpleSchema", "inferKnownType", "inferMap", "inferArray",
+			"inferTuple", "inferBaseType", "inferEnum", "initializeFlags", "isObjectType", "isArrayType", "isAnalyzedAsComplex"}},
+		{"analyzerSkeletons", []string{"initialize", "analyzeOperations", "analyzeItems", "analyzeParameter", "analyzeOperation",
+			"analyzeDefaultResponse", "analyzeResponse", "analyzeSchema"}},
+		{"mixinSkeletons", []string{"Mixin", "getOpIDs", "pathItemOps", "appendOp", "mergeSecurityDefinitions", "mergeSecurityRequirements",
+			"mergeDefinitions", "mergePaths", "mergeParameters", "mergeResponses", "mergeConsumes", "mergeProduces", "mergeTags", "mergeSchemes",
+			"mergeSwaggerProps", "mergeExternalDocs", "mergeInfo", "mergeExtensions", "initPrimary"}},
+		{"fixerSkeletons", []string{"FixEmptyResponseDescriptions", "FixEmptyDescs", "FixEmptyDesc"}},
+	}
+	for _, gr := range groups {
+		fmt.Fprintf(&b, "  %s := [\n", gr.field)
+		for i, n := range gr.names {
+			sep := ","
+			if i == len(gr.names)-1 {
+				sep = ""
+			}
+			fmt.Fprintf(&b, "    (%s, %s)%s\n", leanStr(n), leanStrList(skeletonOf(root, n)), sep)
+		}
+		b.WriteString("  ]\n")
+	}
 	kb, kerr := generateKeysLean(*repo)
 	if kerr != nil {
 		fmt.Fprintln(os.Stderr, "extract: keys:", kerr)
